@@ -45,7 +45,7 @@ def predict_in_pieces(which, n, seed, dtype):
     elif which == "chain3":
         g = vd.Chain([("mean", vd.BlockReduce(np.mean, spacing=4.0)), ("trend", vd.Trend(2)), ("knn", vd.KNeighbors(k=3)), ("lin", vd.Trend(1))]).fit((fe, fn), fd)
     elif which == "chain-f32data":      # single-precision data, a first step that hands its data's type on (nearest neighbour), then double-precision steps
-        g = vd.Chain([("knn", vd.KNeighbors(k=1)), ("trend", vd.Trend(2)), ("spline", vd.Spline(damping=1e-6))]).fit((fe, fn), (1000.0 + 37.0 * fd).astype("float32"))
+        g = vd.Chain([("knn", vd.KNeighbors(k=3)), ("trend", vd.Trend(2)), ("spline", vd.Spline(damping=1e-6))]).fit((fe, fn), (1000.0 + 37.0 * fd).astype("float32"))
     elif which == "spline-many-forces":      # hundreds of forces set by hand (a model read from a file), many query points
         g = vd.Spline(mindist=0.5)
         m = 311
